@@ -59,12 +59,22 @@ def gen_case(rng):
         rules.append({"kind": kind, "var": var, "formula": formula})
     if gv: rules.insert(rng.randint(0, len(rules)), {"kind": "assignment", "var": "gv", "formula": gv["formula"], "target": "parameter"})
     for v in extra_species: sp[v] = {"amount": 0.0, "conc": None}
+    # the document lists its species in a random order (the importer's species indices follow it): nothing may depend on an order
+    # seen in a document imported earlier in the same process (seeded change S3_C13: a parse cache keyed by the SET of species names)
+    items = list(sp.items()); rng.shuffle(items); sp = dict(items)
     pts = [{s: float(rng.randint(0, 6)) + 0.25 * rng.randint(0, 3) for s in sp} for _ in range(3)]
     return {"species": sp, "globals": globs, "reactions": rxs, "rules": rules, "points": pts}
 
 def gen_cases(seed, tier):
     rng = random.Random(seed * 7013 + 13); n = 120 if tier == "quick" else 1500
-    return [gen_case(rng) for _ in range(n)]
+    cases = []
+    for _ in range(n):
+        c = gen_case(rng); cases.append(c)
+        if rng.random() < 0.3 and len(c["species"]) >= 2:
+            # a twin: the same document with its species listed in another order, imported right afterwards in the same process
+            t = json.loads(json.dumps(c)); items = list(t["species"].items()); items = items[1:] + items[:1]; t["species"] = dict(items); t["twin"] = True
+            cases.append(t)
+    return cases
 
 def _write_doc(case, path):
     import libsbml
